@@ -1,0 +1,1 @@
+//! Verification doors: http1 (cfg(trusttunnel_verif) only)
